@@ -74,11 +74,13 @@ Definition rules_ok : Prop :=
   forall r, In r rules -> pure_expr (rwhen r) = true /\ Forall stmt_pure (rthen r).
 
 (* the dependency hypothesis: a successful assignment to x leaves the from-scratch value of every
-   node of the knowledge base unchanged unless the node's snapshot contains x's snapshot *)
+   node of the knowledge base unchanged unless the node's snapshot contains the snapshot of x or - when x is a
+   slice element or map entry - of an element variable of the same container whose selector may denote the same
+   element (reset_set: every pair of selectors except two different literals) *)
 Definition dependency_hypothesis : Prop :=
   forall x fx t nv fx',
     NV x -> pure_var x = true -> fresh_target meth fx x = Ok t -> write_target fx t nv = Ok fx' ->
-    write_ok meth mutating NE NA x fx fx'.
+    write_ok meth mutating NE NA (reset_set (vars_rules rules) x) fx fx'.
 
 Let allvars := vars_rules rules.
 Notation msound := (memo_sound meth mutating NE NA).
